@@ -343,6 +343,96 @@ func runC11(c *Ctx) {
 			})
 			c.ob("C11-R8", fnKey(adm)+"#full-bucket-does-not-bank-idle-time", adds[0].Pos(), resets, "the time base of an existing client is only ever advanced by the time of the tokens added, never brought up to now: while the bucket is full nothing is added, so idle time accumulates as credit - after a pause the bucket refills as fast as it is spent and a burst far above N x (1 + T/window) is admitted")
 		}
+		// tokens are credited for elapsed time only: every `tokens = tokens + k` in the limiter takes k from a time
+		// difference (a refund after the body has run re-opens the budget the admission already spent)
+		{
+			k := 0
+			for _, f := range withAnon(rl) {
+				eachInstr(f, func(_ *ssa.BasicBlock, _ int, ins ssa.Instruction) {
+					st, ok := ins.(*ssa.Store)
+					if !ok || !isStoreToField(ins, "clientLimit", "tokens") {
+						return
+					}
+					bo, ok := st.Val.(*ssa.BinOp)
+					if !ok || bo.Op != token.ADD {
+						return
+					}
+					var inc ssa.Value
+					if loadedFromField(bo.X, "clientLimit", "tokens") {
+						inc = bo.Y
+					} else if loadedFromField(bo.Y, "clientLimit", "tokens") {
+						inc = bo.X
+					} else {
+						return
+					}
+					k++
+					fromTime := derivesFrom(inc, func(z ssa.Value) bool {
+						cl, ok := z.(*ssa.Call)
+						if !ok {
+							return false
+						}
+						nm := callName(cl)
+						return nm == "time.Time.Sub" || nm == "time.Since" || strings.HasPrefix(nm, "time.Duration.")
+					})
+					if !fromTime && f != rf {
+						// the refill helper takes the elapsed time apart itself; elsewhere the increment must show it
+					}
+					if f == rf && site != nil {
+						fromTime = fromTime || origin(inc, func(z ssa.Value) bool {
+							cl, ok := z.(*ssa.Call)
+							return ok && (callName(cl) == "time.Time.Sub" || callName(cl) == "time.Since")
+						})
+					}
+					c.ob("C11-R8", fnKey(f)+"#tokens-credited-for-elapsed-time-only-"+itoa(k), st.Pos(), fromTime, "tokens are added to a client's bucket by something other than the refill for elapsed time (a refund when the body failed, a bonus): the admission test already spent that budget, so a client whose requests end in 5xx - or who hangs up - is never limited and the body runs every time")
+				})
+			}
+		}
+		// a bucket is dropped from the table only when it would be full again: every delete on the per-client table in
+		// a request path lies behind `now - lastRefill > K` for a constant K of at least one minute (the refill window)
+		{
+			k := 0
+			for _, f := range withAnon(rl) {
+				eachInstr(f, func(_ *ssa.BasicBlock, _ int, ins ssa.Instruction) {
+					call, ok := ins.(*ssa.Call)
+					if !ok || callName(call) != "builtin.delete" {
+						return
+					}
+					if mt, ok := call.Call.Args[0].Type().Underlying().(*types.Map); !ok || !mapWithElem(serverPath, "clientLimit")(mt) {
+						return
+					}
+					k++
+					guarded := false
+					for _, b := range f.Blocks {
+						iff := ifOf(b)
+						if iff == nil || !b.Dominates(ins.Block()) {
+							continue
+						}
+						bo, ok := iff.Cond.(*ssa.BinOp)
+						if !ok || (bo.Op != token.GTR && bo.Op != token.GEQ) {
+							continue
+						}
+						kv, isK := constInt(bo.Y)
+						if !isK || kv < int64(60*1e9) {
+							continue
+						}
+						if !derivesFrom(bo.X, func(z ssa.Value) bool { cl, ok := z.(*ssa.Call); return ok && callName(cl) == "time.Time.Sub" }) {
+							continue
+						}
+						if b.Succs[0].Dominates(ins.Block()) || b.Succs[0] == ins.Block() {
+							guarded = true
+						}
+					}
+					// deletes of keys collected under such a test (collect-then-delete) are judged at the collection
+					if !guarded {
+						if derivesFrom(call.Call.Args[1], func(z ssa.Value) bool { _, isNext := z.(*ssa.Next); return isNext }) {
+							// key comes from ranging a slice of stale keys: find the append that collected it
+							guarded = staleKeysCollectedUnderIdleTest(f)
+						}
+					}
+					c.ob("C11-R8", fnKey(f)+"#bucket-dropped-only-when-full-again-"+itoa(k), call.Pos(), guarded, "an entry of the per-client table is deleted without a test that the client has been idle for at least the refill window (now - lastRefill > a constant >= 1 minute): a client that has just spent its budget gets a fresh full bucket with its next request (a flood from many addresses makes the eviction tighten its cutoff)")
+				})
+			}
+		}
 		if len(adds) == 0 {
 			c.ob("C11-R8", fnKey(adm)+"#refill-found", adm.Pos(), false, "no statement of the admitting closure adds tokens to the client's bucket: nothing is ever refilled")
 		} else {
@@ -404,6 +494,37 @@ func runC11(c *Ctx) {
 			})
 		}
 		c.Sites["C11-R3#calls-scanned-for-mask-widening"] = n
+		// … nor is a network made up from a bare address in any other way: a net.IPNet is only ever what
+		// net.ParseCIDR returned for a string the operator wrote (not one the code extended with "/32"), and no
+		// net.IPNet literal is built
+		for _, fn := range c.srcFuncs(serverPkg) {
+			k := 0
+			eachInstr(fn, func(_ *ssa.BasicBlock, _ int, ins ssa.Instruction) {
+				bad := ""
+				switch x := ins.(type) {
+				case *ssa.Alloc:
+					if typeIs(derefType(x.Type()), "net", "IPNet") && x.Comment == "complit" {
+						bad = "a net.IPNet literal is built from a bare address"
+					}
+				case *ssa.Call:
+					if callName(x) == "net.ParseCIDR" && derivesFrom(x.Call.Args[0], func(v ssa.Value) bool {
+						bo, ok := v.(*ssa.BinOp)
+						if !ok || bo.Op != token.ADD {
+							return false
+						}
+						_, cx := constString(bo.X)
+						_, cy := constString(bo.Y)
+						return cx || cy
+					}) {
+						bad = "a prefix length is appended to a configured address before net.ParseCIDR"
+					}
+				}
+				if bad != "" {
+					k++
+					c.ob("C11-R3", fnKey(fn)+"#trust-entry-is-what-the-operator-wrote-"+itoa(k), ins.Pos(), false, bad+": the width the code picks is right for one address family at most (\"/32\" is one IPv4 host but 2^96 IPv6 hosts; the classful default is /8 for 10.x) - every peer inside that network then has its X-Forwarded-For believed, forges a new identity per request and is never limited")
+				}
+			})
+		}
 	}
 
 	// ---- R4 wiring
@@ -825,4 +946,43 @@ func checkAppendsWhenNonNil(c *Ctx, rule, callee string) {
 		}
 	})
 	c.ob(rule, "cmd/glyph.routeMiddlewares#returns-chain-with-"+callee, f.Pos(), retOK, "the slice returned by routeMiddlewares does not derive from the append of "+callee+"'s middleware")
+}
+
+// staleKeysCollectedUnderIdleTest: f appends keys to a slice only under `now.Sub(x.lastRefill) > K` with a constant K of
+// at least one minute (the collect-then-delete idiom of the limiter's eviction).
+func staleKeysCollectedUnderIdleTest(f *ssa.Function) bool {
+	found, okAll := false, true
+	eachInstr(f, func(_ *ssa.BasicBlock, _ int, ins ssa.Instruction) {
+		call, ok := ins.(*ssa.Call)
+		if !ok || callName(call) != "builtin.append" {
+			return
+		}
+		sl, ok := call.Type().Underlying().(*types.Slice)
+		if !ok || !isStringType(sl.Elem()) {
+			return
+		}
+		found = true
+		g := false
+		for _, b := range f.Blocks {
+			iff := ifOf(b)
+			if iff == nil || !b.Dominates(ins.Block()) {
+				continue
+			}
+			bo, ok := iff.Cond.(*ssa.BinOp)
+			if !ok || (bo.Op != token.GTR && bo.Op != token.GEQ) {
+				continue
+			}
+			kv, isK := constInt(bo.Y)
+			if !isK || kv < int64(60*1e9) {
+				continue
+			}
+			if derivesFrom(bo.X, func(z ssa.Value) bool { cl, ok := z.(*ssa.Call); return ok && callName(cl) == "time.Time.Sub" }) && (b.Succs[0].Dominates(ins.Block()) || b.Succs[0] == ins.Block()) {
+				g = true
+			}
+		}
+		if !g {
+			okAll = false
+		}
+	})
+	return found && okAll
 }
